@@ -11,6 +11,14 @@ PY = "PYTHONDONTWRITEBYTECODE=1 /venv/bin/python"
 
 # id -> (level category, engine, technique, level text, level note, design section)
 CHECKS = {
+    "C03": (
+        "model_checking", "engine",
+        "stateless exhaustive enumeration of (grammar x input) executions of the unoptimised interpreter in lock-step with an executable reference PEG model",
+        "Every well-formed expression up to n nodes over the core operators, as a normal and as a silent rule body, is run on every input up to length L in the unoptimised interpreter and compared (accept/reject and full tree) with the reference evaluator, "
+        "which is a persistent-state big-step transcription of pest's semantics validated on the pest-derived samples of the repository's own suite. Small grammars x short inputs exhaustively is the first half of the property's quantifier.",
+        "Trusted: mc/refpeg.py (validated on 127 pinned pest-suite samples), the conservative printer, CPython. Not covered: grammars/inputs beyond the bound, the 'larger ones sampled' clause, recursion.",
+        "5/C03",
+    ),
     "C09": (
         "model_checking", "bfs",
         "explicit-state BFS over the real Stack / SnapshottingInt / ParserState objects in lock-step with a full-copy reference model",
